@@ -204,6 +204,9 @@ def main(ctx):
     # fitted on a growing history): 28, 56, 84 MB
     big = {"lineup": [{"cls": "Halton", "bs": 2}, {"cls": "Ballast", "bs": 2}], "seed": S, "dims": 2, "model": "gauss2", "ensemble": 1, "T": 4}
     cells.insert(0, {"cfg": big, "n": 6, "symbols": "nr", "patterns": [list("nnnrn"), list("nrnnn"), list("nnnnr")] if ctx.quick else [list(p_) for p_ in itertools.product("nr", repeat=5)]})
+    # a user SUBCLASS of Calibrator (it changes how a batch is simulated): stop/restore through the subclass resumes the subclass
+    for lu in (lus[0], lus[13]):
+        cells.append({"cfg": {"lineup": lu, "seed": S, "dims": 2, "model": "gauss2", "ensemble": 2, "subclass": True}, "n": 4, "symbols": "npr"})
     # checkpoints written by hand into one folder at irregular intervals (no saving folder, create_checkpoint only where the run is cut)
     for lu in (lus[5], lus[13]):
         cells.append({"cfg": {"lineup": lu, "seed": S, "dims": 2, "model": "gauss2", "ensemble": 2, "manual_ckpt": True}, "n": 5, "symbols": "npr"})
